@@ -18,11 +18,12 @@ EXTENDS MSCommon, Json, IOUtils
 
 Traces == JsonDeserialize(IOEnv.TRACE_FILE)
 
-VARIABLES tid, i, authed, tlsup, ann, want, pref, incall, bad, badat
-vars == <<tid, i, authed, tlsup, ann, want, pref, incall, bad, badat>>
+VARIABLES tid, i, authed, tlsup, ann, want, pref, incall, bad, badat, tried
+vars == <<tid, i, authed, tlsup, ann, want, pref, incall, bad, badat, tried>>
 
 Init == /\ tid \in 1..Len(Traces) /\ i = 0 /\ authed = {} /\ tlsup = {} /\ ann = <<>>
         /\ want = FALSE /\ pref = "" /\ incall = "" /\ bad = "" /\ badat = 0
+        /\ tried = {}          \* connections on which an AUTHENTICATE command was written
 
 E == Traces[tid].ev[i + 1]
 Ann(c) == IF c \in DOMAIN ann THEN ann[c] ELSE Absent
@@ -38,9 +39,13 @@ WriteClause ==
   ELSE ""
 
 CurConn == Max(DOMAIN ann \cup {0})
+\* connect gave up although the capabilities it had to use (the post-TLS ones when TLS was asked for and came up)
+\* announce a mechanism it implements -- whatever the encoding of the announcement -- and it never tried it
 RetClause ==
   IF incall = "connect" /\ E[2] = "true" /\ CurConn \notin authed THEN "ConnectTrueWithoutOK"
   ELSE IF incall = "connect" /\ E[2] # "true" /\ CurConn \in authed THEN "ConnectNotTrueAfterOK"
+  ELSE IF incall = "connect" /\ CurConn # 0 /\ CurConn \notin tried /\ (want => CurConn \in tlsup)
+          /\ ChooseMech(Ann(CurConn), pref) # "" THEN "MechAvailableNotTried"
   ELSE ""
 
 Next ==
@@ -51,27 +56,28 @@ Next ==
             /\ incall' = E[2]
             /\ want' = IF E[2] = "connect" THEN E[3] ELSE want
             /\ pref' = IF E[2] = "connect" THEN E[4] ELSE pref
-            /\ UNCHANGED <<authed, tlsup, ann, bad, badat>>
+            /\ UNCHANGED <<authed, tlsup, ann, bad, badat, tried>>
        [] E[1] = "open" ->
             /\ ann' = (E[2] :> Absent) @@ ann
-            /\ UNCHANGED <<authed, tlsup, want, pref, incall, bad, badat>>
+            /\ UNCHANGED <<authed, tlsup, want, pref, incall, bad, badat, tried>>
        [] E[1] = "caps" ->
             /\ ann' = (E[2] :> E[3]) @@ ann
-            /\ UNCHANGED <<authed, tlsup, want, pref, incall, bad, badat>>
+            /\ UNCHANGED <<authed, tlsup, want, pref, incall, bad, badat, tried>>
        [] E[1] = "tlsup" ->
             /\ tlsup' = tlsup \cup {E[2]}
             /\ ann' = (E[2] :> Absent) @@ ann        \* what was announced in clear text is void
-            /\ UNCHANGED <<authed, want, pref, incall, bad, badat>>
+            /\ UNCHANGED <<authed, want, pref, incall, bad, badat, tried>>
        [] E[1] = "write" ->
             /\ IF WriteClause # "" THEN Flag(WriteClause) ELSE UNCHANGED <<bad, badat>>
+            /\ tried' = IF E[4] = "AUTHENTICATE" THEN tried \cup {E[2]} ELSE tried
             /\ UNCHANGED <<authed, tlsup, ann, want, pref, incall>>
        [] E[1] = "reply" ->
             /\ authed' = IF E[3] = "AUTHENTICATE" /\ E[4] = "OK" THEN authed \cup {E[2]} ELSE authed
-            /\ UNCHANGED <<tlsup, ann, want, pref, incall, bad, badat>>
+            /\ UNCHANGED <<tlsup, ann, want, pref, incall, bad, badat, tried>>
        [] OTHER ->   \* "ret"
             /\ IF RetClause # "" THEN Flag(RetClause) ELSE UNCHANGED <<bad, badat>>
             /\ incall' = ""
-            /\ UNCHANGED <<authed, tlsup, ann, want, pref>>
+            /\ UNCHANGED <<authed, tlsup, ann, want, pref, tried>>
 
 Spec == Init /\ [][Next]_vars
 Emit == (i = Len(Traces[tid].ev)) => PrintT(ToJson(<<Traces[tid].id, bad, badat>>))
